@@ -183,6 +183,7 @@ public:
     void onStreamStart();
     void onStreamFeatures(const QXmppStreamFeatures &);
     void onStreamClosed();
+    void onSessionOpened(const SessionBegin &);
     void onSasl2Authenticate(Sasl2::Authenticate &auth, const Sasl2::StreamFeature &feature);
     void onSasl2Success(const Sasl2::Success &success);
     void onBind2Request(Bind2Request &request, const std::vector<QString> &bind2Features);
